@@ -1,2 +1,20 @@
-// Package c07 holds the workloads and oracles that decide property C07.
+// Package c07 decides property C07 (SM2 public-key encryption): it executes
+// sm2.Encrypt / EncryptASN1 / Decrypt / PrivateKey.Decrypt, the layout converters
+// and the enveloped-key helpers next to the reference model verifh/ref/sm2enc
+// (GB/T 32918.4 with a harness-chosen ephemeral scalar).
+//
+// Verdict rule used everywhere a byte string b is handed to a decryption entry
+// point E of the library (oracle.judge):
+//
+//   - if b is, under a layout E is documented for, a canonical serialisation
+//     (C1 as 04 or 02/03, DER for ASN.1) of a triple that the reference decryption
+//     opens to m, the library must return exactly m ("reject"/"mismatch" otherwise);
+//   - if the library returns a plaintext, that plaintext must be what the
+//     reference decryption yields for b under one of the layouts, leniently parsed
+//     (hybrid C1, BER variants) - anything else is an "accept" violation;
+//   - a panic is always a violation.
+//
+// Nothing more is demanded: refusing a hybrid C1, or accepting one and returning
+// the right message, are both fine; so is decrypting an ASN.1 ciphertext although
+// plain options were given.
 package c07
